@@ -851,7 +851,8 @@ func (f *frame) storeTarget(addr ssa.Value) (*ssa.Alloc, string) {
 	return nil, ""
 }
 
-// modRegions over-approximates a modifies entry by region-name prefixes.
+// modRegions over-approximates a modifies entry by region-name prefixes,
+// using the static types of the call's arguments.
 func (x *Exec) modRegions(e ast.Expr, cc *ssa.CallCommon, c *Contract) []string {
 	switch e := e.(type) {
 	case *ast.Ident:
@@ -867,6 +868,11 @@ func (x *Exec) modRegions(e ast.Expr, cc *ssa.CallCommon, c *Contract) []string 
 				return []string{"ghost." + id.Name}
 			}
 			if id.Name == "elems" {
+				if t := x.staticType(e.Args[0], cc, c); t != nil {
+					if sl, ok := t.Underlying().(*types.Slice); ok {
+						return []string{elemsBase(sl.Elem())}
+					}
+				}
 				return []string{"elems."}
 			}
 			if id.Name == "chanstate" {
@@ -876,9 +882,83 @@ func (x *Exec) modRegions(e ast.Expr, cc *ssa.CallCommon, c *Contract) []string 
 				return []string{strings.Trim(exprString(e.Args[0]), `"`)}
 			}
 		}
+	case *ast.StarExpr:
+		if t := x.staticType(e.X, cc, c); t != nil {
+			if pt, ok := t.Underlying().(*types.Pointer); ok {
+				return []string{regionBase(pt.Elem())}
+			}
+		}
+	case *ast.SelectorExpr:
+		if t := x.staticType(e.X, cc, c); t != nil {
+			if pt, ok := t.Underlying().(*types.Pointer); ok {
+				t = pt.Elem()
+			}
+			if path := fieldPath(t, e.Sel.Name); path != nil {
+				return []string{regionBase(t) + pathName(t, path)}
+			}
+		}
+	case *ast.IndexExpr:
+		if t := x.staticType(e.X, cc, c); t != nil {
+			if sl, ok := t.Underlying().(*types.Slice); ok {
+				return []string{elemsBase(sl.Elem())}
+			}
+		}
 	}
-	// location expressions: be coarse — any struct/cell/elems region
+	// unknown shape: be coarse — any struct/cell/elems region
 	return []string{"mqtt.", "mqtttest.", "cell.", "struct.", "elems."}
+}
+
+// staticType computes the Go type of a simple spec expression over the
+// callee's parameters (identifier, *x, x.f, x[i]).
+func (x *Exec) staticType(e ast.Expr, cc *ssa.CallCommon, c *Contract) types.Type {
+	switch e := e.(type) {
+	case *ast.ParenExpr:
+		return x.staticType(e.X, cc, c)
+	case *ast.Ident:
+		var names []string
+		if c != nil && len(c.Params) > 0 {
+			names = c.Params
+		} else if fn := cc.StaticCallee(); fn != nil {
+			for _, p := range fn.Params {
+				names = append(names, p.Name())
+			}
+		}
+		var argT []types.Type
+		if cc.IsInvoke() {
+			argT = append(argT, cc.Value.Type())
+		}
+		for _, a := range cc.Args {
+			argT = append(argT, a.Type())
+		}
+		for i, n := range names {
+			if n == e.Name && i < len(argT) {
+				return argT[i]
+			}
+		}
+	case *ast.StarExpr:
+		if t := x.staticType(e.X, cc, c); t != nil {
+			if pt, ok := t.Underlying().(*types.Pointer); ok {
+				return pt.Elem()
+			}
+		}
+	case *ast.SelectorExpr:
+		if t := x.staticType(e.X, cc, c); t != nil {
+			if pt, ok := t.Underlying().(*types.Pointer); ok {
+				t = pt.Elem()
+			}
+			if path := fieldPath(t, e.Sel.Name); path != nil {
+				_, _, ft := compRange(t, path)
+				return ft
+			}
+		}
+	case *ast.IndexExpr:
+		if t := x.staticType(e.X, cc, c); t != nil {
+			if sl, ok := t.Underlying().(*types.Slice); ok {
+				return sl.Elem()
+			}
+		}
+	}
+	return nil
 }
 
 // ---- intrinsics: error constructors and predicates of the standard library ----
